@@ -97,3 +97,40 @@ def copy_violation(c):
     if ct.dump_circuit(c) != before:
         return 'mutating the copy changed the original'
     return None
+
+
+def observations(c):
+    """what the public read-only entry points answer for this object (exceptions by name)"""
+    out = {}
+
+    def rec(key, fn):
+        try:
+            out[key] = fn()
+        except RecursionError:
+            out[key] = 'RecursionError'
+        except Exception as e:  # noqa: BLE001
+            out[key] = 'raises ' + type(e).__name__
+    n = len(c._inputs)
+    for inv in (False, True):
+        rec(f'top_sort(inverse={inv})', lambda inv=inv: [g.label for g in c.top_sort(inverse=inv)])
+    vecs = [[False] * n, [True] * n, [bool(i % 2) for i in range(n)]]
+    for v in vecs:
+        rec(f'evaluate({v})', lambda v=v: list(c.evaluate(list(v))))
+    rec('evaluate_full_circuit(all False)',
+        lambda: [(k, str(x)) for k, x in c.evaluate_full_circuit({i: False for i in c._inputs}).items()])
+    if n <= 4:
+        rec('get_truth_table()', lambda: [list(r) for r in c.get_truth_table()])
+    return out
+
+
+def stale_violation(c):
+    """the object must answer exactly like a FRESH circuit object that has the same state: anything else means that
+    answers depend on the history of calls (a cache or a flag that a mutator forgot to reset)"""
+    from . import coqterm as ct
+    live = observations(c)
+    fresh = observations(ct.build_circuit(ct.dump_circuit(c)))
+    for k in live:
+        if live[k] != fresh[k]:
+            return (f'{k} answers {str(live[k])[:120]} on this object but {str(fresh[k])[:120]} on a fresh circuit '
+                    f'with the same state (the answer depends on earlier calls)')
+    return None
